@@ -192,6 +192,27 @@ inline Sym abs(const Sym& a) {
   return a.is_const() ? Sym(std::fabs(a.c)) : Sym::node("(ite (>= " + a.term() + " #D0000000000000000) " + a.term() + " (- " + a.term() + "))");
 }
 inline Sym fabs(const Sym& a) { return abs(a); }
+inline Sym floor(const Sym& a);
+inline Sym ceil(const Sym& a) { return a.is_const() ? Sym(std::ceil(a.c)) : Sym::node("(- (to_real (to_int (- " + a.term() + "))))"); }
+inline Sym trunc(const Sym& a) {
+  if (a.is_const()) return Sym(std::trunc(a.c));
+  return Sym::node("(ite (>= " + a.term() + " #D0000000000000000) (to_real (to_int " + a.term() + ")) (- (to_real (to_int (- " + a.term() + ")))))");
+}
+inline Sym round(const Sym& a) {  // half away from zero, as std::round
+  if (a.is_const()) return Sym(std::round(a.c));
+  std::string h = cstr(0.5);
+  return Sym::node("(ite (>= " + a.term() + " #D0000000000000000) (to_real (to_int (+ " + a.term() + " " + h + "))) (- (to_real (to_int (+ (- " + a.term() + ") " + h + ")))))");
+}
+inline Sym max(const Sym& a, const Sym& b) {
+  if (a.is_const() && b.is_const()) return Sym(a.c > b.c ? a.c : b.c);
+  return Sym::node("(ite (>= " + a.term() + " " + b.term() + ") " + a.term() + " " + b.term() + ")");
+}
+inline Sym min(const Sym& a, const Sym& b) {
+  if (a.is_const() && b.is_const()) return Sym(a.c < b.c ? a.c : b.c);
+  return Sym::node("(ite (<= " + a.term() + " " + b.term() + ") " + a.term() + " " + b.term() + ")");
+}
+inline bool isfinite(const Sym&) { return true; }  // reals are finite (stated assumption)
+inline bool isnan(const Sym&) { return false; }
 inline Sym floor(const Sym& a) { return a.is_const() ? Sym(std::floor(a.c)) : Sym::node("(to_real (to_int " + a.term() + "))"); }
 
 inline Sym::operator size_t() const {
@@ -271,6 +292,15 @@ inline vsym::Sym sin(const vsym::Sym& a) { return vsym::sin(a); }
 inline vsym::Sym cos(const vsym::Sym& a) { return vsym::cos(a); }
 inline vsym::Sym exp(const vsym::Sym& a) { return vsym::exp(a); }
 inline vsym::Sym pow(const vsym::Sym& a, const vsym::Sym& b) { return vsym::pow(a, b); }
+inline vsym::Sym ceil(const vsym::Sym& a) { return vsym::ceil(a); }
+inline vsym::Sym trunc(const vsym::Sym& a) { return vsym::trunc(a); }
+inline vsym::Sym round(const vsym::Sym& a) { return vsym::round(a); }
+inline vsym::Sym max(const vsym::Sym& a, const vsym::Sym& b) { return vsym::max(a, b); }
+inline vsym::Sym min(const vsym::Sym& a, const vsym::Sym& b) { return vsym::min(a, b); }
+inline vsym::Sym fmax(const vsym::Sym& a, const vsym::Sym& b) { return vsym::max(a, b); }
+inline vsym::Sym fmin(const vsym::Sym& a, const vsym::Sym& b) { return vsym::min(a, b); }
+inline bool isfinite(const vsym::Sym&) { return true; }
+inline bool isnan(const vsym::Sym&) { return false; }
 }  // namespace std
 
 #else  // ------------------------------------------------------------------ VSYM_CONCRETE (replay twin)
